@@ -33,8 +33,8 @@ def run_demos():
 clean_ok, clean_out = run_demos()
 r = sh(f"git apply --3way {src}/patch.diff", cwd=wt)
 applied = r.returncode == 0
-build = sh("go build ./... && go vet -tags verif . ", cwd=wt).returncode == 0 if applied else False
 for p in placed: os.rename(p, p + ".off")
+build = sh("go build ./... && go vet -tags verif . ", cwd=wt).returncode == 0 if applied else False
 suite = sh("go test -vet=off -count=1 ./...", cwd=wt) if applied else None
 for p in placed: os.rename(p + ".off", p)
 mut_ok, mut_out = run_demos() if applied else (None, "")
